@@ -12,7 +12,7 @@ RULE = ('Hypothesis-generated operation programs (0-10 steps plus bursts of up t
         'instance/static/property inputs, instance/static outputs, instance and class-level operations, alias '
         'resolvers, fallback aliases (also naming the live alias of another input of the operation, with the same call made '
         'through both), every capture selection, invertible input/output data handlers, interceptions nested in intercepted '
-        'bodies, raising bodies, raising operations, 2-3 worker threads with thread-private output aliases; values from '
+        'bodies, raising bodies, intercepted calls cut short by an interrupt-style exception that the operation swallows, raising operations, 2-3 worker threads with thread-private output aliases; values from '
         'the faithful domain, objects-without-aliasing and aliasing-without-list-state families) are built into real '
         'classes with the real decorators, recorded once, stored and fetched through a cassette in {in-memory, file, '
         'S3/"", S3/"p/q", async wrapper over in-memory, async wrapper over slow storage}, and replayed (playback function builds the instance directly '
@@ -161,7 +161,7 @@ def check_roundtrip(ctx, case):
     shapes, n_in, n_out = PS.shape_classes(prog)
     with_args = any(s['t'] == 'in' and prog['ins'][s['i']]['kind'] != 'property' for s in PS.iter_steps(prog['steps']))
     nt = (n_in + n_out >= 2 and with_args and n_out >= 1) or bool(
-        shapes & {'in-handler', 'out-handler', 'resolver', 'capture-subset', 'nested', 'threads', 'in-raises',
+        shapes & {'in-handler', 'out-handler', 'resolver', 'capture-subset', 'nested', 'threads', 'in-raises', 'swallowed-interrupt',
                   'out-raises', 'alias>9calls'})
     if (prog.get('params') or {}).get('copy_data_on_intercepion'):
         shapes.add('copy-on-interception')
@@ -211,7 +211,7 @@ def cases():
     def fam(name, values):
         params = st.sampled_from([None, None, {'copy_data_on_intercepion': True}, {'copy_data_on_intercepion': True},
                                   {'sampling_rate': 1.5}, {'ignore_enforced_sampling': True}])
-        return st.fixed_dictionaries({'prog': with_fallbacks(PS.programs(values=values, params=params)),
+        return st.fixed_dictionaries({'prog': with_fallbacks(PS.programs(values=values, params=params, swallowed_interrupts=True)),
                                       'cassette': st.sampled_from(CASSETTES),
                                       'style': st.sampled_from(['direct', 'metadata-class']), 'family': st.just(name)})
     return st.one_of(fam('objects', V.small_values), fam('objects', V.small_values),
